@@ -3,7 +3,6 @@
    MODEL = Model/Uptime.v (uptime.rs + the TIMESTAMPS arm of tcp_process.rs, exact arithmetic),
    SPEC = Spec/UptimeSpec.v.  Known classes (code departs from the property; witnesses below):
      known_small_advance  in bounds but fewer than 5 ticks: withheld
-     known_backward       backward-moving timestamps are reported at the mirrored rate
      known_role_split     role is part of the tracker key: SYN and later ACKs of one endpoint are
                           never paired when the port heuristic contradicts the handshake flags *)
 From Coq Require Import List ZArith Bool.
@@ -50,12 +49,12 @@ Print Assumptions C19_grid_documented.
 (* ---- withheld: out of bounds => nothing (all t, v: no range hypothesis needed) ---- *)
 Theorem C19_withheld :
   forall t1 v1 t2 v2 : Z,
-    in_bounds t1 v1 t2 v2 = false -> known_backward t1 v1 t2 v2 = false ->
+    in_bounds t1 v1 t2 v2 = false ->
     model_estimate t1 v1 t2 v2 = None /\ spec_estimate t1 v1 t2 v2 = None.
 Proof. exact estimate_withheld. Qed.
 Check C19_withheld :
   forall t1 v1 t2 v2 : Z,
-    in_bounds t1 v1 t2 v2 = false -> known_backward t1 v1 t2 v2 = false ->
+    in_bounds t1 v1 t2 v2 = false ->
     model_estimate t1 v1 t2 v2 = None /\ spec_estimate t1 v1 t2 v2 = None.
 Print Assumptions C19_withheld.
 
@@ -151,11 +150,14 @@ Theorem C19_Known_small_advance_refuted :
                       model_estimate t1 v1 t2 v2 <> spec_estimate t1 v1 t2 v2.
 Proof. exact Known_small_advance_refuted. Qed.
 Print Assumptions C19_Known_small_advance_refuted.
-Theorem C19_Known_backward_refuted :
-  exists t1 v1 t2 v2, wf_obs t1 v1 /\ wf_obs t2 v2 /\ known_backward t1 v1 t2 v2 = true /\
-                      model_estimate t1 v1 t2 v2 <> spec_estimate t1 v1 t2 v2.
-Proof. exact Known_backward_refuted. Qed.
-Print Assumptions C19_Known_backward_refuted.
+(* former known class "backward movement reported" (repaired in /repo): its witnesses now agree with the SPEC *)
+Theorem C19_Known_backward_former_witness_agrees :
+  model_estimate 0 1000 1000 900 = spec_estimate 0 1000 1000 900 /\
+  model_estimate 0 5000000 60000 4940000 = spec_estimate 0 5000000 60000 4940000 /\
+  model_estimate 0 1000 50 985 = spec_estimate 0 1000 50 985 /\
+  spec_estimate 0 1000 1000 900 = None.
+Proof. exact Known_backward_former_witness_agrees. Qed.
+Print Assumptions C19_Known_backward_former_witness_agrees.
 Theorem C19_Known_role_split_refuted :
   exists h, Forall wf_event h /\ known_role_split h = true /\
             map to_sresult (run_history [] h) <> spec_history [] h.
